@@ -120,7 +120,13 @@ def run(tier):
     if tier == "thorough":
         cands = all_candidates()
     else:
-        cands = core_candidates() + rnd.sample(all_candidates(), 120)
+        cands = core_candidates()
+        for c in rnd.sample(all_candidates(), 120):
+            pl = [tuple(p) + ((rnd.randrange(len(gen_cmp.KEY_STYLES)),) if "key" in p[2] else ()) for p in c[1]]
+            cands.append((c[0], pl, c[2], c[3]))
+        for ks in range(1, len(gen_cmp.KEY_STYLES)):
+            cands.append(("s_named3", [(1, "hash", ("key",), ks)], SUBSETS[0], "attr"))
+            cands.append(("e_mixed", [(2, "eq", ("key",), ks)], SUBSETS[2], "attr"))
     seen, uniq = set(), []
     for c in cands:
         k = candidate_desc(*c)
